@@ -38,14 +38,21 @@ def read_table(db_path):
 
 
 def spell(ch, host, label="case"):
-    """A letter-case variant of a host name (DNS names are case-insensitive)."""
-    k = ch.choose(label, 4, [6, 1, 1, 1])
+    """Another spelling of the same host name: letter case (DNS names are case-insensitive)
+    or a compatibility character that IDNA name preparation maps to the same name (a
+    full-width letter; the resolver and the TLS layer see the plain name)."""
+    k = ch.choose(label, 5, [6, 1, 1, 1, 1])
     if k == 0:
         return host
     if k == 1:
         return host.upper()
     if k == 2:
         return host.title()
+    if k == 4:
+        i = next((i for i, c in enumerate(host) if "a" <= c <= "z"), None)
+        if i is None:
+            return host
+        return host[:i] + chr(ord(host[i]) - ord("a") + 0xFF41) + host[i + 1:]
     return "".join(c.upper() if i % 2 else c for i, c in enumerate(host))
 
 
